@@ -5,7 +5,7 @@ import vlib
 
 PROPS = {
     "C01": {"LiveAnnotationsDisjoint", "BoundIPIsKeyedToPod"},
-    "C02": {"StickyBind", "ReserveBeforeFresh"},
+    "C02": {"StickyBind", "ReserveBeforeFresh", "FilterTakesReserve"},
     "C03": {"ReleaseJustified", "NoLeakAtQuiescence"},
     "C04": {"LiveKeepsIP", "NoUnassignWhileLive"},
     "C05": {"MemStoreAgree"},
@@ -156,7 +156,8 @@ def plugin_traces(run, pid, quick):
     foci = FOCUS[pid]
     plan = []
     if quick:
-        plan = [(foci[0], 50, 70, run.seed)] + [(f, 15, 60, run.seed + 7 * (i + 1)) for i, f in enumerate(foci[1:])]
+        # (the directed families are small worlds whose rare situations need more traces than a side family gets)
+        plan = [(foci[0], 50, 70, run.seed)] + [(f, 40 if f in ("syncall", "c03cloud") else 15, 60, run.seed + 7 * (i + 1)) for i, f in enumerate(foci[1:])]
     else:
         for k in range(4):
             plan += [(foci[0], 250, 80, run.seed * 1000 + k)] + [(f, 80, 70, run.seed * 1000 + 100 + 10 * i + k) for i, f in enumerate(foci[1:])]
